@@ -163,9 +163,23 @@ def _d3(chk, fb):
             else:
                 chk.proved("D3", f.key, "listener-retargeted", f.loc(good[0]), "%d uses of '%s', all after re-targeting" % (len(uses), d["name"]))
             attach = [u for u in uses if u["callee"]["name"] == "addParameterListener"]
-            reg = [u for u in uses if u["callee"]["name"] == "operator="]
+            reg = [u for u in uses if u["callee"]["name"] in ("operator=", "insert", "emplace", "insert_or_assign")]
+            # the attaching (or registering) half may live in a helper of the class that receives the cloned listener
+            via = []
+            for u in uses:
+                if u["callee"].get("inrepo") and u["callee"].get("cls") == APA and u["callee"]["name"] not in ("addParameterListener",):
+                    for t in fb.targets(u):
+                        if t.body is not None:
+                            if any(x["callee"]["name"] == "addParameterListener" for x in t.calls()):
+                                attach.append(u)
+                                via.append(t.name)
+                            if any(x["callee"]["name"] in ("operator=", "insert", "emplace") and "obj" in x and "aliasListenersRegister_" in render(t.obj(x)) for x in t.calls()):
+                                reg.append(u)
+                                via.append(t.name)
             if attach and reg:
-                chk.proved("D3", f.key, "listener-registered-and-attached", f.loc(attach[0]), "registered in the map and attached to the parameters that carried the old id")
+                chk.proved("D3", f.key, "listener-registered-and-attached", f.loc(attach[0]), "registered in the map and attached to the parameters that carried the old id" + (" (through %s)" % ", ".join(sorted(set(via))) if via else ""))
+            elif uses and not (attach or reg):
+                chk.unknown("D3", f.key, "listener-registered-and-attached", f.loc(ds), "the cloned listener is handed to %s: registration/attachment not recognised there" % sorted({u["callee"]["name"] for u in uses}))
             else:
                 chk.refuted("D3", f.key, "listener-registered-and-attached", f.loc(ds), "cloned listener is not both registered and attached")
         # shared parameter pointers must come from the copy itself
